@@ -39,7 +39,7 @@ Proof.
   destruct p as [|c p']; [reflexivity|].
   destruct (negb (is_nb F (c :: p'))); [reflexivity|].
   destruct r; try (destruct blob; reflexivity).
-  rewrite Hs, Hf. simpl. destruct (pushd_body W (chdir cwd d) (c :: p')); reflexivity.
+  rewrite Hs, Hf. simpl. destruct (pushd_body F W (chdir cwd d) (c :: p')); reflexivity.
 Qed.
 
 Lemma stable_root F W cwd : stable F W (Up 0) cwd cwd.
@@ -48,7 +48,7 @@ Proof.
   destruct p as [|c p']; [reflexivity|].
   destruct (negb (is_nb F (c :: p'))); [reflexivity|].
   destruct r; try (destruct blob; reflexivity).
-  simpl. destruct (f_pushd_saves F), (pushd_body W cwd (c :: p')), (f_pushd_finally F); reflexivity.
+  simpl. destruct (f_pushd_saves F), (pushd_body F W cwd (c :: p')), (f_pushd_finally F); reflexivity.
 Qed.
 
 (* ------------------------------------------------------------------ the loop under stability *)
@@ -74,19 +74,20 @@ Proof.
     simpl spec_pairs.
     pose proof (gs_reads_at F (a_path e) rb root) as Ra.
     pose proof (gs_reads_at F (b_path e) rr root) as Rb.
-    destruct (spec_stream F W root (a_path e) (a_blob e) rb) as [|fa|].
-    + (* a side is not a notebook *)
-      simpl. repeat split; auto. apply Forall_app; split; auto.
-    + rewrite (St (b_path e) (b_blob e) rr).
-      destruct (spec_stream F W root (b_path e) (b_blob e) rr) as [|fb|].
-      * simpl. repeat split; auto.
-        apply Forall_app; split; auto. apply Forall_app; split; auto.
-      * simpl. repeat split; auto.
-        -- apply Forall_app; split; auto. apply Forall_app; split; auto.
-        -- unfold pairs_of in *. simpl.
-           destruct (spec_pairs F W root rb rr rest) as [l x]. inversion Hp; subst. reflexivity.
-      * simpl. repeat split; auto. apply Forall_app; split; auto.
+    destruct (is_raise (spec_stream F W root (a_path e) (a_blob e) rb)).
+    { simpl. repeat split; auto. }
+    destruct (early_skip F (spec_stream F W root (a_path e) (a_blob e) rb)).
+    { simpl. repeat split; auto. apply Forall_app; split; auto. }
+    rewrite (St (b_path e) (b_blob e) rr).
+    destruct (is_raise (spec_stream F W root (b_path e) (b_blob e) rr)).
+    { simpl. repeat split; auto. apply Forall_app; split; auto. }
+    destruct (pair_of F (spec_stream F W root (a_path e) (a_blob e) rb) (spec_stream F W root (b_path e) (b_blob e) rr))
+      as [[fa fb]|].
     + simpl. repeat split; auto.
+      * apply Forall_app; split; auto. apply Forall_app; split; auto.
+      * unfold pairs_of in *. simpl.
+        destruct (spec_pairs F W root rb rr rest) as [l x]. inversion Hp; subst. reflexivity.
+    + simpl. repeat split; auto. apply Forall_app; split; auto. apply Forall_app; split; auto.
 Qed.
 
 (* ------------------------------------------------------------------ the property, per source fact *)
@@ -132,54 +133,74 @@ Proof.
 Qed.
 
 (* ------------------------------------------------------------------ pairs_exact in "map over filter" form *)
+Lemma spec_stream_noraise F W root p blob r :
+  (forall q, w_filter W root q <> FRaise) ->
+  (f_filter_in_try F = true \/ forall q, w_filter W root q <> FRaiseIO) ->
+  is_raise (spec_stream F W root p blob r) = false.
+Proof.
+  intros NR NI. unfold spec_stream. destruct p; [reflexivity|]. destruct (negb _); [reflexivity|].
+  destruct r; try (destruct blob; reflexivity).
+  unfold pushd_body. specialize (NR (c :: p)).
+  destruct (w_filter W root (c :: p)) eqn:E; try congruence; try reflexivity.
+  - destruct (w_fs W _); reflexivity.
+  - destruct NI as [T | NI]; [rewrite T; reflexivity | exfalso; exact (NI _ E)].
+Qed.
+
+Lemma spec_stream_notnb F W root p blob r :
+  is_raise (spec_stream F W root p blob r) = false ->
+  is_notnb (spec_stream F W root p blob r) = negb (nb_or_none F p).
+Proof.
+  unfold spec_stream, nb_or_none. destruct p; [reflexivity|].
+  destruct (is_nb F (c :: p)); simpl; [|reflexivity].
+  destruct r; try (destruct blob; reflexivity).
+  unfold pushd_body. destruct (w_filter W root (c :: p)); simpl; try reflexivity; try discriminate.
+  - destruct (w_fs W _); reflexivity.
+  - destruct (f_filter_in_try F); simpl; [reflexivity | discriminate].
+Qed.
+
 Lemma spec_pairs_filter F W root rb rr es :
   (forall p, w_filter W root p <> FRaise) ->
+  (f_filter_in_try F = true \/ forall q, w_filter W root q <> FRaiseIO) ->
   spec_pairs F W root rb rr es = (map (entry_pair F W root rb rr) (filter (entry_is_nb F) es), false).
 Proof.
-  intros NR.
-  assert (Hs : forall p blob r, spec_stream F W root p blob r <> ORaise).
-  { intros p blob r. unfold spec_stream. destruct p; [discriminate|]. destruct (negb _); [discriminate|].
-    destruct r; try (destruct blob; discriminate).
-    unfold pushd_body. specialize (NR (c :: p)). destruct (w_filter W root (c :: p)); try congruence; try discriminate.
-    destruct (w_fs W _); discriminate. }
-  assert (Hn : forall p blob r, spec_stream F W root p blob r = ONotNb <-> nb_or_none F p = false).
-  { intros p blob r. unfold spec_stream, nb_or_none. destruct p; [split; discriminate|].
-    destruct (is_nb F (c :: p)) eqn:E; simpl; [|split; reflexivity].
-    split; [|discriminate]. destruct r; try (destruct blob; discriminate).
-    unfold pushd_body. destruct (w_filter W root (c :: p)); try discriminate. destruct (w_fs W _); discriminate. }
+  intros NR NI.
   induction es as [|e rest IH]; [reflexivity|].
   simpl. unfold entry_is_nb at 1.
-  destruct (spec_stream F W root (a_path e) (a_blob e) rb) as [|fa|] eqn:Ea.
-  - apply Hn in Ea. rewrite Ea. simpl. exact IH.
-  - assert (Na : nb_or_none F (a_path e) = true).
-    { destruct (nb_or_none F (a_path e)) eqn:E; [reflexivity|]. apply Hn with (blob := a_blob e) (r := rb) in E. congruence. }
-    rewrite Na. simpl.
-    destruct (spec_stream F W root (b_path e) (b_blob e) rr) as [|fb|] eqn:Eb.
-    + apply Hn in Eb. rewrite Eb. exact IH.
-    + assert (Nb : nb_or_none F (b_path e) = true).
-      { destruct (nb_or_none F (b_path e)) eqn:E; [reflexivity|]. apply Hn with (blob := b_blob e) (r := rr) in E. congruence. }
-      rewrite Nb. rewrite IH. simpl. unfold entry_pair. rewrite Ea, Eb. reflexivity.
-    + exfalso. exact (Hs _ _ _ Eb).
-  - exfalso. exact (Hs _ _ _ Ea).
+  pose proof (spec_stream_noraise F W root (a_path e) (a_blob e) rb NR NI) as Ra.
+  pose proof (spec_stream_noraise F W root (b_path e) (b_blob e) rr NR NI) as Rb.
+  pose proof (spec_stream_notnb F W root (a_path e) (a_blob e) rb Ra) as Na.
+  pose proof (spec_stream_notnb F W root (b_path e) (b_blob e) rr Rb) as Nb.
+  rewrite Ra, Rb. unfold early_skip. rewrite Na. rewrite IH.
+  assert (EP : entry_pair F W root rb rr e =
+               (stream_of (spec_stream F W root (a_path e) (a_blob e) rb),
+                stream_of (spec_stream F W root (b_path e) (b_blob e) rr))) by reflexivity.
+  destruct (spec_stream F W root (a_path e) (a_blob e) rb) as [|fa|];
+    destruct (spec_stream F W root (b_path e) (b_blob e) rr) as [|fb|];
+    simpl in Ra, Rb, Na, Nb; try discriminate;
+    destruct (nb_or_none F (a_path e)); try discriminate;
+    destruct (nb_or_none F (b_path e)); try discriminate;
+    unfold pair_of; destruct (f_skip_both F); simpl; rewrite ?EP; reflexivity.
 Qed.
 
 Theorem pairs_exact F W root popped rb rr paths :
   good F -> (forall p, w_filter W root p <> FRaise) ->
+  (f_filter_in_try F = true \/ forall q, w_filter W root q <> FRaiseIO) ->
   let res := changed_notebooks F W root popped rb rr paths in
   pairs_of res = map (entry_pair F W root rb rr)
                      (filter (entry_is_nb F) (w_diff W (tree_of_base rb) rr (map (fun p => popped ++ p) paths)))
   /\ r_raised res = false.
 Proof.
-  intros G NR res. destruct (full_of_good F G W root popped rb rr paths) as (_ & _ & _ & Hp).
-  fold res in Hp. rewrite spec_pairs_filter in Hp by exact NR. inversion Hp. split; reflexivity.
+  intros G NR NI res. destruct (full_of_good F G W root popped rb rr paths) as (_ & _ & _ & Hp).
+  fold res in Hp. rewrite (spec_pairs_filter F W root rb rr _ NR NI) in Hp. inversion Hp. split; reflexivity.
 Qed.
 
-(* an entry with a notebook on one side only (rename across the suffix) is skipped *)
+(* an entry with a notebook on one side only (rename across the suffix) is skipped by the either-side rule *)
 Lemma mixed_entry_skipped F W root rb rr e rest :
-  entry_is_nb F e = false -> rb <> RWorktree ->
+  f_skip_both F = false -> entry_is_nb F e = false -> rb <> RWorktree ->
   spec_pairs F W root rb rr (e :: rest) = spec_pairs F W root rb rr rest.
 Proof.
-  intros H Hb. simpl. unfold entry_is_nb, nb_or_none in H. unfold spec_stream.
+  intros Sk H Hb. simpl. unfold entry_is_nb in H. rewrite Sk in H. unfold early_skip, pair_of. rewrite Sk. simpl negb.
+  unfold nb_or_none in H. unfold spec_stream.
   destruct (a_path e) as [|c p] eqn:Ea.
   - simpl in H. destruct (b_path e) as [|c' p'] eqn:Eb; [discriminate|]. rewrite H. reflexivity.
   - destruct (is_nb F (c :: p)) eqn:Ia; simpl; [|reflexivity].
@@ -193,12 +214,18 @@ Lemma worktree_base_degenerate F W root es :
   Forall (fun pr : stream * stream => fst pr = snd pr) (fst (spec_pairs F W root RWorktree RWorktree es)).
 Proof.
   induction 1 as [|e rest He _ IH]; simpl; [constructor|].
-  unfold spec_stream. rewrite <- He.
-  destruct (a_path e) as [|c p].
+  rewrite <- He.
+  destruct (is_raise (spec_stream F W root (a_path e) (a_blob e) RWorktree)); [constructor|].
+  destruct (early_skip F _); [exact IH|].
+  assert (E : spec_stream F W root (a_path e) (b_blob e) RWorktree = spec_stream F W root (a_path e) (a_blob e) RWorktree).
+  { unfold spec_stream. destruct (a_path e); [reflexivity|]. destruct (negb _); reflexivity. }
+  rewrite E.
+  destruct (is_raise (spec_stream F W root (a_path e) (a_blob e) RWorktree)); [constructor|].
+  unfold pair_of.
+  destruct (spec_stream F W root (a_path e) (a_blob e) RWorktree).
+  - exact IH.
   - destruct (spec_pairs F W root RWorktree RWorktree rest); simpl in *. constructor; auto.
-  - destruct (negb (is_nb F (c :: p))); [exact IH|].
-    destruct (pushd_body W root (c :: p)); try exact IH; try constructor.
-    destruct (spec_pairs F W root RWorktree RWorktree rest); simpl in *. constructor; auto.
+  - exact IH.
 Qed.
 
 (* ------------------------------------------------------------------ pushd saving '.' : the drift *)
@@ -227,9 +254,9 @@ Proof.
   destruct r.
   - destruct blob; eexists [], _; simpl; rewrite Nat.mul_0_r; auto.
   - destruct blob; eexists [], _; simpl; rewrite Nat.mul_0_r; auto.
-  - rewrite Hs. exists [(up k cwd, c :: p')], (pushd_body W (up k cwd) (c :: p')). simpl.
+  - rewrite Hs. exists [(up k cwd, c :: p')], (pushd_body F W (up k cwd) (c :: p')). simpl.
     rewrite Nat.mul_1_r. split; [|reflexivity].
-    destruct (pushd_body W (up k cwd) (c :: p')), (f_pushd_finally F); reflexivity.
+    destruct (pushd_body F W (up k cwd) (c :: p')), (f_pushd_finally F); reflexivity.
 Qed.
 
 Theorem curdir_drift F W rb rr k es cwd :
@@ -251,21 +278,21 @@ Proof.
     { intros rd c2 res' Hc Hd Hr Hm. simpl. rewrite app_length. split.
       - subst c2. rewrite Nat.mul_add_distr_l, up_add. exact Hr.
       - subst c2. rewrite map_app, drift_reads_app. f_equal; [exact Hd | exact Hm]. }
-    destruct oa as [|fa|].
-    + destruct (IH (up (k * length rd1) cwd)) as [I1 I2]. apply Comb with (c2 := up (k * length rd1) cwd); auto.
-    + destruct (get_stream_curdir F W (up (k * length rd1) cwd) (b_path e) (b_blob e) rr k Hs) as (rd2 & ob & E2 & D2).
-      rewrite E2.
-      assert (C2 : up (k * length rd2) (up (k * length rd1) cwd) = up (k * length (rd1 ++ rd2)) cwd).
-      { rewrite app_length, Nat.mul_add_distr_l, up_add. reflexivity. }
-      assert (M2 : map fst (rd1 ++ rd2) = drift_reads k cwd (length (rd1 ++ rd2))).
-      { rewrite map_app, app_length, drift_reads_app. f_equal; [exact D1 | exact D2]. }
-      destruct ob as [|fb|].
-      * destruct (IH (up (k * length rd2) (up (k * length rd1) cwd))) as [I1 I2].
-        apply Comb with (c2 := up (k * length rd2) (up (k * length rd1) cwd)); auto.
-      * destruct (IH (up (k * length rd2) (up (k * length rd1) cwd))) as [I1 I2].
-        apply Comb with (c2 := up (k * length rd2) (up (k * length rd1) cwd)); auto.
-      * simpl. rewrite C2. split; [reflexivity | exact M2].
-    + simpl. split; [reflexivity | exact D1].
+    destruct (is_raise oa).
+    { simpl. split; [reflexivity | exact D1]. }
+    destruct (early_skip F oa).
+    { destruct (IH (up (k * length rd1) cwd)) as [I1 I2]. apply Comb with (c2 := up (k * length rd1) cwd); auto. }
+    destruct (get_stream_curdir F W (up (k * length rd1) cwd) (b_path e) (b_blob e) rr k Hs) as (rd2 & ob & E2 & D2).
+    rewrite E2.
+    assert (C2 : up (k * length rd2) (up (k * length rd1) cwd) = up (k * length (rd1 ++ rd2)) cwd).
+    { rewrite app_length, Nat.mul_add_distr_l, up_add. reflexivity. }
+    assert (M2 : map fst (rd1 ++ rd2) = drift_reads k cwd (length (rd1 ++ rd2))).
+    { rewrite map_app, app_length, drift_reads_app. f_equal; [exact D1 | exact D2]. }
+    destruct (is_raise ob).
+    { simpl. rewrite C2. split; [reflexivity | exact M2]. }
+    destruct (IH (up (k * length rd2) (up (k * length rd1) cwd))) as [I1 I2].
+    destruct (pair_of F oa ob) as [[fa fb]|];
+      apply Comb with (c2 := up (k * length rd2) (up (k * length rd1) cwd)); auto.
 Qed.
 
 (* consequence: from a subdirectory of depth k >= 1, as soon as one working-tree file has been read the caller's
@@ -327,23 +354,25 @@ Definition subdir_refuted (F : facts) : Prop :=
 
 Theorem refuted_of_curdir F : f_pushd_saves F = Curdir -> f_nb_suffix F = s_ipynb -> subdir_refuted F.
 Proof.
-  intros Hs Hn. destruct F as [sv fin suf ap]. simpl in Hs, Hn. subst sv suf.
+  intros Hs Hn. destruct F as [sv fin suf ap sk ft]. simpl in Hs, Hn. subst sv suf.
   exists wit_world, [c_r], [c_s], head_ref, RWorktree, [].
-  destruct fin; vm_compute; (split; [discriminate|]); (split; [reflexivity|]); (split; [discriminate|]);
+  destruct fin, sk, ft; vm_compute; (split; [discriminate|]); (split; [reflexivity|]); (split; [discriminate|]);
     (split; [eexists; split; [left; reflexivity | discriminate]|]);
     (split; [eexists; split; [right; left; reflexivity | discriminate] | discriminate]).
 Qed.
 
 (* the positive statement is not vacuous: the same scenario under a restoring pushd *)
 Example full_property_witness :
-  let F := {| f_pushd_saves := Getcwd; f_pushd_finally := true; f_nb_suffix := s_ipynb; f_allpaths_base := BaseHead |} in
+  let F := {| f_pushd_saves := Getcwd; f_pushd_finally := true; f_nb_suffix := s_ipynb; f_allpaths_base := BaseHead;
+              f_skip_both := false; f_filter_in_try := false |} in
   let res := changed_notebooks F wit_world [c_r] [c_s] head_ref RWorktree [] in
   r_cwd res = [c_r; c_s] /\
   pairs_of res = [(SBlob 10%N, SFile [c_s; c_b] 20%N); (SBlob 11%N, SFile [c_s; c_c] 21%N)].
 Proof. vm_compute. split; reflexivity. Qed.
 
 Example curdir_witness_behaviour :
-  let F := {| f_pushd_saves := Curdir; f_pushd_finally := true; f_nb_suffix := s_ipynb; f_allpaths_base := BaseNone |} in
+  let F := {| f_pushd_saves := Curdir; f_pushd_finally := true; f_nb_suffix := s_ipynb; f_allpaths_base := BaseNone;
+              f_skip_both := false; f_filter_in_try := false |} in
   let res := changed_notebooks F wit_world [c_r] [c_s] head_ref RWorktree [] in
   r_cwd res = [] /\
   pairs_of res = [(SBlob 10%N, SFile [c_s; c_b] 20%N); (SBlob 11%N, SMissing)].
